@@ -19,6 +19,7 @@ ID = "C09"
 LEVEL = "model_checking"
 QUICK_SHARDS = 4
 MIN_NONTRIVIAL = 50
+FUZZ_RUNS = 240000     # thorough tier: atheris executions (all children)
 RULE = (
     "Histories of public editing operations (add/remove atom and bond incl. "
     "formed/broken/fleeting, set/delete atom and bond attributes incl. "
@@ -372,6 +373,8 @@ def run(ctx):
     for k, (cls, op) in enumerate(jobs):
         if k % ctx.nshards == ctx.shard:
             mine.setdefault(cls, []).append(op)
+    if getattr(ctx, "collect_only", False):
+        mine = {}                      # atheris stage: generators only
     for cls, roots in mine.items():
         s, t, q = bfs(ctx, cls, depth, max_states, roots)
         tot_s += s
@@ -396,5 +399,5 @@ def run(ctx):
         ctx.extra["traces_validated_against_impl"] = ctx.extra.get(
             "traces_validated_against_impl", 0) + 1
 
-    ctx.hyp("c09", S.tapes(2500).map(gen), check, ctx.scale(4000, 60000),
+    ctx.hyp("c09", S.mapped(2500, gen), check, ctx.scale(4000, 60000),
             shrinker=shrink)
